@@ -75,6 +75,11 @@ def gen_ops(ctx, n):
     return ops
 
 
+FRESH_QUERIES = ["let-a-1/one/fresh/getvar-a", "one/let-x-2/fresh/state_variable-x", "ns-alt/one/fresh/add-5", "flag-flagged-true/one/fresh/ident/getvar-flagged",
+                 "one/fresh/let-b-3/fresh/getvar-b", "let-a-1/one/fresh/cat-~X~getvar-a~E", "hello-w/let-b-q/fresh/fresh/argsc-~X~state_variable-b~E-1",
+                 "ns-alt/one/fresh/ident/only", "one/fresh", "let-a-7/vals-p/fresh/app-~X~/one/getvar-a~E"]
+
+
 def run(ctx):
     from liquer.cache import NoCache
     n = 24000 if ctx.tier == "thorough" else 4000
@@ -96,6 +101,15 @@ def run(ctx):
             ctx.violation("ref:" + H.op_wire(op), bad, dict(kind="ref", op=list(op), defaults=dflt))
         if len(ctx.samples) < 6 and o["kind"] == "state" and q.count("/") >= 2:
             ctx.sample(dict(query=q, value=o.get("value"), vars=o.get("vars"), last=o.get("last"), calls=o["calls"]))
+    # a command that returns its own State object (vocab.fresh, as liquer's df_from): the state variables, namespaces and flags set to its
+    # left must still reach the steps to its right. Implementation-side oracle only (reference interpreter), no file names / attributes.
+    fresh = [(("E", q), d) for q in FRESH_QUERIES for d in ({}, {"a": "dflt"})]
+    for (op, dflt), res in zip(fresh, EP.common.pmap(EP.run_session_task, [(None, [op], dflt) for op, dflt in fresh])):
+        ctx.case("fresh|" + op[1])
+        ctx.count("features", "command returning its own State")
+        bad = check_against_ref(op[1], op, res[0][1], dflt)
+        if bad:
+            ctx.violation("ref:" + H.op_wire(op), bad, dict(kind="ref", op=list(op), defaults=dflt))
     sessions = [([op], dflt) for op, dflt in cases]
     EP.model_sessions(ctx, "evaluate under NoCache vs evaluator model", sessions, ["N"] * len(sessions), lines)
     # the specification itself (reference interpretation in Lean) vs the implementation: outcome and calls, cache column dropped
